@@ -71,7 +71,10 @@ def main():
     legs = reg["legs_fn"](a.tier) if "legs_fn" in reg else reg["legs"]
     report = {"property": a.prop, "tier": a.tier, "legs": []}
     ok_all = True
+    only = os.environ.get("VERIF_LEG")
     for lspec in legs:
+        if only and lspec["name"] not in only.split(","):
+            continue
         leg = pipeline.Leg(a.prop, lspec, a.tier, 1, os.path.join(work, lspec["name"]))
         os.makedirs(leg.work, exist_ok=True)
         leg.generate()
@@ -122,7 +125,7 @@ def main():
         print("%s %-18s corrupted=%d rejected=%d  %s" % (a.prop, lspec["name"], tot, tot_r,
               " ".join("%s=%d/%d" % (k, c[0], c[1]) for k, c in sorted(per.items()))))
     os.makedirs(os.path.join(ROOT, "selftest"), exist_ok=True)
-    json.dump(report, open(os.path.join(ROOT, "selftest", a.prop + ".json"), "w"), indent=1)
+    json.dump(report, open(os.path.join(ROOT, "selftest", a.prop + ("-" + only.replace(",", "-") if only else "") + ".json"), "w"), indent=1)
     return 0 if ok_all else 1
 
 
